@@ -332,6 +332,14 @@ l = FileLock(path)
 l.acquire()
 if how == 'popen':
     pid = subprocess.Popen(['sleep', '30'], close_fds=False).pid
+elif how == 'fork':
+    # a worker forked while the lock is held (multiprocessing's default start method on Linux): it never touches
+    # the lock, but it shares the holder's open file descriptions
+    pid = os.fork()
+    if pid == 0:
+        import time
+        time.sleep(30)
+        os._exit(0)
 else:
     pid = os.spawnv(os.P_NOWAIT, '/bin/sleep', ['sleep', '30'])
 with open(pidfile, 'w') as f:
@@ -428,9 +436,10 @@ def run(ctx):
                     chunks.append((script, part, ncont, ctx.seed + g))
         if ctx.quick:
             chunks.append((script, idx[::7], 2, ctx.seed))
-    chunks += ([('queued', [False], [('0', 'popen'), ('-', 'spawnv')]), ('queued', [True], [('1', 'spawnv'), ('2', 'popen')])]
+    chunks += ([('queued', [False], [('0', 'popen'), ('-', 'spawnv'), ('-', 'fork')]),
+                ('queued', [True], [('1', 'spawnv'), ('2', 'popen'), ('0', 'fork')])]
                if ctx.quick else
-               [('queued', [False, True], [(c, h) for c in ('-', '0', '1', '2') for h in ('popen', 'spawnv')])] * 4)
+               [('queued', [False, True], [(c, h) for c in ('-', '0', '1', '2') for h in ('popen', 'spawnv', 'fork')])] * 4)
     out = run_chunks(_dispatch, chunks, 8 if ctx.quick else ctx.workers, limit_s=240 if ctx.quick else 1800)
     out.exhaustive = True
     return out
